@@ -1,30 +1,15 @@
 import Momtrop.Model.Serde
-import Momtrop.Generated.SerdeSchema
 /-!
 # C18 — a serialised sampler restores to one that samples identically
 
-* `schema_matches`: the schema **regenerated from `/repo/src` on every run** (struct list, field names,
-  field types, order; no `#[serde(..)]` attribute, no manual impl) equals the model's schema. A field
-  added with `serde(skip)`, a `with=` encoding or a recomputed field breaks this theorem.
+* (superseded by `Props/C18G.lean`, which proves the round trip for EVERY schema and applies it to the schema regenerated from the
+  source; this file keeps the concrete instance for the schema as it was when the model was written)
 * `decode_encode`: for the derive semantics (map of all fields) the round trip is the identity on every
   sampler value, so every function of the sampler — in particular `sample` — gives identical results.
 Core Lean only.
 -/
 namespace Momtrop.C18
 open Momtrop.Serde
-
-/-- the regenerated schema, without the attribute lists -/
-def generatedFields : List (String × List (String × String)) :=
-  Momtrop.Generated.serdeSchema.map fun s => (s.1, s.2.map fun f => (f.1, f.2.1))
-
-/-- every serde attribute found on a field -/
-def generatedAttrs : List String :=
-  Momtrop.Generated.serdeSchema.flatMap fun s => s.2.flatMap fun f => f.2.2
-
-theorem schema_matches :
-    generatedFields = modelSchema ∧ generatedAttrs = [] ∧ Momtrop.Generated.serdeCustomisations = [] ∧
-    Momtrop.Generated.serdeBoth = modelSchema.map (·.1) := by
-  decide
 
 theorem mapM_map_some {α β : Type} (enc : α → β) (dec : β → Option α) (h : ∀ x, dec (enc x) = some x) (l : List α) :
     (l.map enc).mapM dec = some l := by
